@@ -2,11 +2,14 @@
 (* Batch trace validator for property C18: observations logged from real magpylib objects around copy() and     *)
 (* around every later mutation are judged with the requirement clauses of Heap.tla (the operators that TLC also *)
 (* checks on every step of the model MC_Heap).                                                                  *)
-(* Input (ndjson, IOEnv.TRACE_FILE), one line per scenario:                                                     *)
+(* Input (ndjson, IOEnv.TRACE_FILE), one line per scenario = a copy record + what follows:                      *)
 (*  {tid, sc, root, cls, pre: <obs>, outcome, same_object, kwargs_intact, ren: {orig -> copy}, post: <obs>,     *)
-(*   entries: [{kw, family, attr, val, text}], field: {have, q0, qo, qc, fin}, field_mismatch,                  *)
-(*   steps: [{tid, op, target, side, others, mine, expect, outcome, obs: <obs>}]}                               *)
-(*  <obs> = {kind, cls, parent, children, srcs, sens, colls, refs, pub, lab, sty} keyed by object name          *)
+(*   entries: [{kw, family, attr, val, text, leaf, isnone, call}], leaves: {pre, post, orig_post} (every style  *)
+(*   leaf of original / copy), field: {have, q0, qo, qc, fin}, field_mismatch,                                  *)
+(*   has2, copy2: a second copy record made by the caller with the SAME argument containers,                    *)
+(*   steps: [{tid, op, target, side, others, args, mine, expect, outcome, obs: <obs>}]}                         *)
+(*  <obs> = {kind, cls, parent, children, srcs, sens, colls, refs, pub, lab, sty} keyed by object name; the     *)
+(*  node "ARGS" (kind "A") holds the keyword values of the caller: its cells are the caller's containers.       *)
 EXTENDS Heap, Quant, Json, IOUtils
 VARIABLE x
 
@@ -35,7 +38,13 @@ FreeOf(e, pre) ==
 
 FieldSame(a, b) == Len(a) = Len(b) /\ \A i \in 1..Len(a) : Close8(a[i], b[i], 0)
 
-\* <<property, clause>> of the first failing clause of the copy step, or <<"ok","ok">>
+\* the caller's argument node, when keywords were given
+ArgsIn(ob) == {"ARGS"} \cap OObjs(ob)
+\* style leaves addressed by a style keyword
+FreeLeaves(e) == {n.leaf : n \in {n \in Entries(e) : n.family = "style"}}
+
+\* <<property, clause>> of the first failing clause of a copy step, or <<"ok","ok">>.  e: a copy record
+\* {sc, root, pre, post, outcome, same_object, kwargs_intact, ren, entries, leaves, field, field_mismatch}
 CopyVerdict(e) ==
     IF e.outcome # "ok"
     THEN \* a subject that cannot be duplicated at all: copy() may fail, but "leaves the original tree untouched"
@@ -46,37 +55,49 @@ CopyVerdict(e) ==
              post == ObOf(e.post)
              o == e.root
              c == e.ren[o]
-             cl == CopyClause(pre, post, o, e.ren, OvrOf(e), FreeOf(e, pre))
+             A == ArgsIn(pre)
+             cl == CopyClause(pre, post, o, e.ren, OvrOf(e), FreeOf(e, pre), A)
              labs == {n \in Entries(e) : n.family = "label"}
-         IN IF cl # "ok" THEN <<"C18", cl>>
+         IN IF cl \notin {"ok", "ArgumentsNotAliased"} THEN <<"C18", cl>>
             ELSE IF \E x1 \in OSub(pre, o) : e.post.cls[e.ren[x1]] # e.pre.cls[x1] THEN <<"C18", "SameClass">>
-            ELSE IF \E n \in labs : post.lab[c].none \/ post.lab[c].text # n.val THEN <<"C18", "OverridesOnlyCopy">>
+            ELSE IF \E n \in labs : (IF n.isnone THEN ~post.lab[c].none ELSE (post.lab[c].none \/ post.lab[c].text # n.val)) THEN <<"C18", "OverridesOnlyCopy">>
+            \* every style value the keywords do not address is the original's (a keyword given to another copy included)
+            ELSE IF ~AttrsEqualExcept(e.leaves.pre, e.leaves.post, FreeLeaves(e)) THEN <<"C18", "StyleLeavesOnlyOverrides">>
+            ELSE IF e.leaves.orig_post # e.leaves.pre THEN <<"C18", "OriginalUntouched">>
             ELSE IF e.field_mismatch THEN <<"C18", "SameField">>
             ELSE IF e.field.have /\ e.field.fin /\ ~FieldSame(e.field.qo, e.field.q0) THEN <<"C18", "OriginalFieldUntouched">>
             ELSE IF e.field.have /\ e.field.fin /\ (\A n \in Entries(e) : n.family \in {"style", "label"})
                     /\ ~FieldSame(e.field.qc, e.field.qo) THEN <<"C18", "SameField">>
             ELSE IF labs = {} /\ ~LabelIterOK(pre.lab[o], post.lab[c], e.pre.sty[o], e.pre.cls[o]) THEN <<"-", "LabelIteration">>
-            ELSE IF ~e.kwargs_intact THEN <<"-", "CallerKwargsMutated">>
+            ELSE IF cl = "ArgumentsNotAliased" THEN <<"-", "ArgumentsNotAliased">>
+            ELSE IF ~e.kwargs_intact THEN <<"C18", "ArgumentsUntouched">>
             ELSE <<"ok", "ok">>
 
-\* a later change applied to one side: every object of the other side is exactly as before and still unshared
+\* a later change applied to one side: every object of the other side is exactly as before and still unshared; the
+\* caller's argument containers are not reached either (and a change of them by the caller reaches no object)
 StepVerdict(prej, s) ==
     LET pre == ObOf(prej)
         post == ObOf(s.obs)
         others == {s.others[i] : i \in DOMAIN s.others}
-        rest == OObjs(post) \ others
-    IN IF ~IndependentStep(pre, post, others) THEN <<"C18", "Independence">>
-       ELSE IF rest # {} /\ CellsOf(post, others) \cap CellsOf(post, rest) # {} THEN <<"C18", "NoSharingAfter">>
+        args == {s.args[i] : i \in DOMAIN s.args}
+        rest == (OObjs(post) \ others) \ args
+    IN IF ~IndependentStep(pre, post, others) THEN (IF s.side = "args" THEN <<"-", "ArgumentsIndependent">> ELSE <<"C18", "Independence">>)
+       ELSE IF rest # {} /\ CellsOf(post, others) \cap CellsOf(post, rest) # {}
+            THEN (IF s.side = "args" THEN <<"-", "ArgumentsNotAliased">> ELSE <<"C18", "NoSharingAfter">>)
+       ELSE IF ~IndependentStep(pre, post, args) THEN <<"-", "ArgumentsIndependent">>
        ELSE <<"ok", "ok">>
 \* the change was visible on the side it was applied to (otherwise the step shows nothing)
 Effective(prej, s) == LET pre == ObOf(prej) post == ObOf(s.obs) IN
     \E y \in {s.mine[i] : i \in DOMAIN s.mine} : y \notin OObjs(pre) \/ ObjObs(post, y) # ObjObs(pre, y)
 
-PreOf(e, k) == IF k = 1 THEN e.post ELSE e.steps[k - 1].obs
+LastPost(e) == IF e.has2 THEN e.copy2.post ELSE e.post
+PreOf(e, k) == IF k = 1 THEN LastPost(e) ELSE e.steps[k - 1].obs
 HasSteps(e) == e.outcome = "ok" /\ ~e.same_object /\ Len(e.steps) > 0
 BadOf(i) == LET e == Trace[i]
                 cv == CopyVerdict(e)
+                cv2 == IF e.has2 THEN CopyVerdict(e.copy2) ELSE <<"ok", "ok">>
             IN (IF cv[1] # "ok" THEN {<<e.tid, cv, "copy", e.sc.subject, e.sc.kwtag, e.sc.mode>>} ELSE {})
+               \cup (IF cv2[1] # "ok" THEN {<<e.copy2.tid, cv2, "copy2", e.sc.subject, e.sc.kwtag, e.sc.mode>>} ELSE {})
                \cup (IF HasSteps(e)
                      THEN {<<e.steps[k].tid, StepVerdict(PreOf(e, k), e.steps[k]), e.steps[k].op, e.sc.subject, e.steps[k].target, e.steps[k].side>> :
                               k \in {k \in 1..Len(e.steps) : StepVerdict(PreOf(e, k), e.steps[k])[1] # "ok"}}
@@ -87,7 +108,7 @@ InfoOf(i) == LET e == Trace[i] IN
                       k \in {k \in 1..Len(e.steps) : e.steps[k].expect /\ (e.steps[k].outcome # "ok" \/ ~Effective(PreOf(e, k), e.steps[k]))}}
              ELSE {}
 RECURSIVE CountRange(_, _)
-CountRange(lo, hi) == IF lo > hi THEN 0 ELSE IF lo = hi THEN 1 + Len(Trace[lo].steps)
+CountRange(lo, hi) == IF lo > hi THEN 0 ELSE IF lo = hi THEN 1 + (IF Trace[lo].has2 THEN 1 ELSE 0) + Len(Trace[lo].steps)
                       ELSE LET mid == (lo + hi) \div 2 IN CountRange(lo, mid) + CountRange(mid + 1, hi)
 AllBad == UNION {BadOf(i) : i \in 1..Len(Trace)}
 AllInfo == UNION {InfoOf(i) : i \in 1..Len(Trace)}
